@@ -134,6 +134,13 @@ func Run(w *sim.World, opt Options) *Outcome {
 		prevCommit[i] = r.G("commitIndex", i).AsNumber()
 	}
 	elections := 0
+	seenFig8 := false
+	type committed struct {
+		entry tla.Value
+		term  int32
+		by    int
+	}
+	var committedAt []committed // index k-1: the entry first seen committed at index k
 	invariants := func(label string, a *env.Actor) {
 		logs := make([][]tla.Value, n+1)
 		for i := 1; i <= n; i++ {
@@ -144,6 +151,38 @@ func Run(w *sim.World, opt Options) *Outcome {
 			}
 		}
 		term := func(e tla.Value) int32 { return e.ApplyFunction(S("term")).AsNumber() }
+		// LeaderCompleteness, as the property states it: an entry committed in a term is in
+		// the log of every leader of a later term. The term in which an entry is committed is
+		// the current term of the first server seen with commitIndex >= its index. (The
+		// predicate of that name in raftkvs.tla compares the leader's term with the term of
+		// the ENTRY instead; a cut-off, stale leader of a term between the entry's term and
+		// the term of its commit falsifies that stronger predicate in correct Raft, so it is
+		// not used as the oracle.)
+		for i := 1; i <= n; i++ {
+			ti, ci := r.G("currentTerm", i).AsNumber(), int(r.G("commitIndex", i).AsNumber())
+			for k := len(committedAt) + 1; k <= ci && k <= len(logs[i]); k++ {
+				committedAt = append(committedAt, committed{logs[i][k-1], ti, i})
+			}
+		}
+		for j := 1; j <= n; j++ {
+			if r.G("state", j).AsString() != "leader" {
+				continue
+			}
+			tj := r.G("currentTerm", j).AsNumber()
+			for k, c := range committedAt {
+				if tj >= c.term && (k+1 > len(logs[j]) || !logs[j][k].Equal(c.entry)) {
+					dump := ""
+					for x := 1; x <= n; x++ {
+						dump += fmt.Sprintf(" [server %d: %s term %d commitIndex %d log terms", x, r.G("state", x).AsString(), r.G("currentTerm", x).AsNumber(), r.G("commitIndex", x).AsNumber())
+						for _, e := range logs[x] {
+							dump += fmt.Sprintf(" %d", term(e))
+						}
+						dump += "]"
+					}
+					out.fail("LeaderCompleteness", "after %s of %s: entry %d (%v) was committed in term %d (first seen at server %d) and is not in the log of leader %d of term %d;%s", label, a.Name, k+1, c.entry, c.term, c.by, j, tj, dump)
+				}
+			}
+		}
 		for i := 1; i <= n; i++ {
 			si, ti, ci := r.G("state", i).AsString(), r.G("currentTerm", i).AsNumber(), r.G("commitIndex", i).AsNumber()
 			for j := 1; j <= n; j++ {
@@ -166,16 +205,6 @@ func Run(w *sim.World, opt Options) *Outcome {
 								}
 							}
 							break
-						}
-					}
-				}
-				// LeaderCompleteness
-				if sj == "leader" {
-					for k := 1; k <= int(ci) && k <= len(logs[i]); k++ {
-						if tj >= term(logs[i][k-1]) {
-							if k > len(logs[j]) || !logs[i][k-1].Equal(logs[j][k-1]) {
-								out.fail("LeaderCompleteness", "after %s of %s: entry %d committed at server %d (%v) is not in the log of leader %d of term %d", label, a.Name, k, i, logs[i][k-1], j, tj)
-							}
 						}
 					}
 				}
@@ -219,6 +248,30 @@ func Run(w *sim.World, opt Options) *Outcome {
 			}
 			if si == "leader" && prevState[i] != "leader" {
 				elections++
+			}
+			if si == "leader" && !seenFig8 {
+				// reach probe: an entry of an older term stored on a majority under a leader that
+				// has nothing of its own term yet (the situation of figure 8 in the Raft paper:
+				// counting replicas would commit it)
+				own := false
+				for _, e := range logs[i] {
+					if term(e) == ti {
+						own = true
+					}
+				}
+				for k := int(ci) + 1; !own && k <= len(logs[i]); k++ {
+					cnt := 0
+					for j := 1; j <= n; j++ {
+						if len(logs[j]) >= k && logs[j][k-1].Equal(logs[i][k-1]) {
+							cnt++
+						}
+					}
+					if cnt*2 > n && term(logs[i][k-1]) < ti {
+						seenFig8 = true
+						out.Probes["old_term_entry_on_majority_under_new_leader"]++
+						break
+					}
+				}
 			}
 			if len(logs[i]) < r.G("log", i).AsTuple().Len() {
 				panic("unreachable")
@@ -297,7 +350,126 @@ func Run(w *sim.World, opt Options) *Outcome {
 	weight := make([]int, n+1)
 	phaseLen := []int{50, 150, 400, 100000}[w.Choose(sim.KCfg, 4)]
 	slowRepl := w.Choose(sim.KCfg, 3) == 1
+	// leader flapping (a third of the runs with >= 3 servers): in every phase one server is the
+	// favoured candidate (its election timer fires readily, the others' hardly ever) and,
+	// usually, the previous favourite is cut off (its messages are delayed in both
+	// directions, its timers keep running): the pattern behind stale leaders, competing
+	// terms and figure 8 of the Raft paper
+	flap := n >= 3 && w.Choose(sim.KCfg, 3) == 2
+	fav, iso := 0, 0
+	if flap {
+		out.Probes["flap_mode"]++
+		phaseLen = []int{60, 120, 250}[w.Choose(sim.KCfg, 3)]
+		r.TimeoutP0 = func(sv int) float64 {
+			if sv == fav {
+				return 0.5
+			}
+			return 0.985
+		}
+	}
+	// stale-leader hunt (half of the non-flapping 3-server runs): a state-aware adversary of
+	// the kind a partitioning network is. It waits for a leader L holding an entry nobody
+	// else has, cuts L off and favours another server B; once B leads a later term and holds
+	// an entry of its own that nobody else has, it cuts B off and lets L back in; once L
+	// leads again and its old entry is on a majority, it cuts L off and lets B run for
+	// election. Every choice (who, when timers fire, what is delivered) is still drawn from
+	// the stream; only the weights depend on the observed state.
+	hunt := n == 3 && !flap && w.Choose(sim.KCfg, 2) == 1
+	hs, hL, hB, hK, hSince := 0, 0, 0, 0, 0
+	suppressAE := 0
+	if hunt {
+		max += 7000
+		out.Probes["hunt_mode"]++
+		r.TimeoutP0 = func(sv int) float64 {
+			if fav == 0 {
+				return r.CoinP0
+			}
+			if sv == fav {
+				return 0.5
+			}
+			return 0.998
+		}
+	}
+	huntStep := func() {
+		logAt := func(i, k int) (tla.Value, bool) {
+			l := r.G("log", i).AsTuple()
+			if k < 1 || k > l.Len() {
+				return tla.Value{}, false
+			}
+			return l.Get(k - 1), true
+		}
+		onlyOn := func(i, k int) bool {
+			e, ok := logAt(i, k)
+			if !ok {
+				return false
+			}
+			for j := 1; j <= n; j++ {
+				if j != i {
+					if e2, ok2 := logAt(j, k); ok2 && e2.Equal(e) {
+						return false
+					}
+				}
+			}
+			return true
+		}
+		st := func(i int) string { return r.G("state", i).AsString() }
+		tm := func(i int) int32 { return r.G("currentTerm", i).AsNumber() }
+		switch hs {
+		case 0:
+			for i := 1; i <= n; i++ {
+				k := r.G("log", i).AsTuple().Len()
+				if st(i) == "leader" && k > int(r.G("commitIndex", i).AsNumber()) && onlyOn(i, k) {
+					hL, hK = i, k
+					hB = 1 + (i+w.Choose(sim.KFault, 2))%n
+					r.Isolated = map[int]bool{hL: true}
+					fav, suppressAE = hB, hB
+					hs, hSince = 1, out.Steps
+					out.Probes["hunt_stale_leader_cut_off"]++
+					return
+				}
+			}
+		case 1:
+			e, ok := logAt(hB, hK)
+			if st(hB) == "leader" && ok && e.ApplyFunction(S("term")).AsNumber() == tm(hB) && onlyOn(hB, hK) {
+				r.Isolated = map[int]bool{hB: true}
+				fav, suppressAE = hL, 0
+				hs, hSince = 2, out.Steps
+				out.Probes["hunt_second_leader_cut_off"]++
+			}
+		case 2:
+			e, ok := logAt(hL, hK)
+			if st(hL) == "leader" && ok && tm(hL) > e.ApplyFunction(S("term")).AsNumber() {
+				cnt := 0
+				for j := 1; j <= n; j++ {
+					if e2, ok2 := logAt(j, hK); ok2 && e2.Equal(e) {
+						cnt++
+					}
+				}
+				if cnt*2 > n {
+					if hSince >= 0 {
+						hSince = -out.Steps - 1 // remember when the entry reached a majority
+						out.Probes["hunt_old_entry_on_majority"]++
+					}
+					// give the leader time to (wrongly) advance its commit index, then cut it off
+					if out.Steps+hSince+1 > 80 || int(r.G("commitIndex", hL).AsNumber()) >= hK {
+						r.Isolated = map[int]bool{hL: true}
+						fav = hB
+						hs, hSince = 3, out.Steps
+						out.Probes["hunt_final_election"]++
+					}
+				}
+			}
+		}
+		if hs > 0 && hs < 3 && hSince >= 0 && out.Steps-hSince > 3000 {
+			// the situation did not develop: let the run go on undisturbed
+			hs, fav, suppressAE = -1, 0, 0
+			r.Isolated = nil
+		}
+	}
 	for out.Steps = 0; out.Steps < max; out.Steps++ {
+		if hunt && hs >= 0 && hs < 3 {
+			huntStep()
+		}
 		en := wd.Enabled()
 		if len(en) == 0 {
 			break
@@ -326,6 +498,31 @@ func Run(w *sim.World, opt Options) *Outcome {
 			for i := range weight {
 				weight[i] = []int{20, 20, 20, 3, 1}[w.Choose(sim.KFault, 5)]
 			}
+			if flap {
+				prev := fav
+				fav = 1 + w.Choose(sim.KFault, n)
+				if fav == prev {
+					fav = 1 + fav%n
+				}
+				iso = 0
+				switch k := w.Choose(sim.KFault, 10); {
+				case k < 6:
+					iso = prev
+				case k < 8:
+					iso = 1 + w.Choose(sim.KFault, n)
+					if iso == fav {
+						iso = 0
+					}
+				}
+				r.Isolated = map[int]bool{}
+				if iso != 0 {
+					r.Isolated[iso] = true
+					out.Probes["server_isolated"]++
+				}
+				for i := range weight {
+					weight[i] = 20
+				}
+			}
 		}
 		total := 0
 		ws := make([]int, len(cand))
@@ -336,8 +533,19 @@ func Run(w *sim.World, opt Options) *Outcome {
 				if slowRepl && a == r.Servers[sv-1][2] && ws[i] > 2 {
 					ws[i] = 2 // AppendEntries senders run rarely: logs diverge, elections overtake replication
 				}
+				if suppressAE == sv && a == r.Servers[sv-1][2] {
+					ws[i] = 0 // the hunted second leader does not get to replicate its entry
+				}
+			} else if hunt && hs >= 2 {
+				ws[i] = 0 // clients are slow while the old leader is back: no entry of its new term yet
 			}
 			total += ws[i]
+		}
+		if total == 0 {
+			for i := range ws {
+				ws[i] = 1
+			}
+			total = len(ws)
 		}
 		pick := w.Choose(sim.KSched, total)
 		a := cand[len(cand)-1]
@@ -369,7 +577,10 @@ func Run(w *sim.World, opt Options) *Outcome {
 				done = false
 			}
 		}
-		if done {
+		if done && !(hunt && hs >= 1) {
+			break
+		}
+		if hunt && hs == 3 && out.Steps-hSince > 600 {
 			break
 		}
 	}
